@@ -83,8 +83,9 @@ def C09_concurrent_statement : Prop :=
 it … no matter … what has been evicted, or how far the background writer has got … sets that spill
 past the in-memory threshold, and reads racing with flushes".
 
-REPAIRED configuration of the model (`get_snapshot` lets the chronologically last staged operation
-on an element win; the `Spilled` iterator keeps draining – fixes/key-of-set-*.diff).  One foreground
+The code AS IT IS (configuration `repaired` of the model: since /repo commits d9a4d81 and b91d22f
+`get_snapshot` lets the chronologically last staged operation on an element win and the `Spilled`
+iterator keeps draining; the correspondence check runs this configuration).  One foreground
 task whose operations are atomic; ANY placement of `commit`, `notify` (flush up to an epoch),
 eviction of the cached set (always enabled) and of the staging log (when not dirty) between them;
 every spill threshold `thr`; every initial store image.  Every `get` returns, as a set, exactly the
@@ -95,7 +96,20 @@ theorem set_refines_map (thr : Nat) (db0 : List Nat) (sched : List SetCache.Ev) 
     ∀ p ∈ outs, ∀ x, x ∈ p.1 ↔ x ∈ p.2 :=
   SetCache.run_outputs (SetCache.inv_init _ _ _) rfl h
 
-/-- The code AS IT IS, inside the trigger-free region: along any schedule on which every `get` is
+/-- non-vacuity for `set_refines_map` (threshold 4, store {1..6}): spilled fetch with a staged removal INSIDE the
+materialised prefix and a staged insert; insert/remove/insert of one element over three batches; commit, flush,
+evictions, refetch; shrinking below the threshold. -/
+example :
+    (SetCache.run (SetCache.init SetCache.repaired 4 [1, 2, 3, 4, 5, 6])
+      [.begin, .ins 9, .rem 2, .get, .submit, .begin, .rem 9, .submit, .begin, .ins 9, .get, .commit, .evictEntry, .get,
+       .notify, .submit, .commit, .commit, .notify, .notify, .evictEntry, .evictLog, .get,
+       .begin, .rem 1, .rem 3, .get]).map (fun r => r.2.map (fun p => (p.1.eraseDups, p.2)))
+      = some [([1, 3, 4, 5, 6, 9], [1, 3, 4, 5, 6, 9]), ([1, 3, 4, 5, 6, 9], [1, 3, 4, 5, 6, 9]),
+              ([1, 3, 4, 5, 6, 9], [1, 3, 4, 5, 6, 9]), ([1, 3, 4, 5, 6, 9], [1, 3, 4, 5, 6, 9]),
+              ([4, 5, 6, 9], [4, 5, 6, 9])] := by decide
+
+/-- HISTORICAL (the code BEFORE the fixes of F10 and F17, configuration `asIs` of the model): what
+that code did guarantee.  Along any schedule on which every `get` is
 issued in a state satisfying `getSafe` (the staging log of the key holds at most one operation per
 element; a read that fetches a set whose store image exceeds the threshold has no staged removal
 among the first `thr+1` store elements), every `get` returns the true set – across the threshold,
@@ -125,7 +139,8 @@ example :
     ((SetCache.run (SetCache.init SetCache.asIs 4 [1, 2, 3, 4, 5, 6])
       [.begin, .ins 9, .rem 6]).map (fun r => SetCache.getSafe r.1)) = some true := by decide
 
-/-- For the code as it is the unrestricted statement is FALSE (finding F10, first form): insert,
+/-- HISTORICAL witness (fixed in /repo d9a4d81).  For the code before the fix the unrestricted
+statement was FALSE (finding F10, first form): insert,
 remove, insert of one element in three uncommitted batches, set not cached: the staging log's heap
 order is I₃ I₁ R₂, the second insert is absorbed, the remove cancels the first – the element reads as
 absent.  The shortest such history (9 events). -/
@@ -134,27 +149,27 @@ theorem set_asis_fails_heap_order :
       [.begin, .ins 5, .submit, .begin, .rem 5, .submit, .begin, .ins 5, .get]).map (·.2)
       = some [([], [5])] := by decide
 
-/-- F10, second form (chronological order does not help): the store has 5; insert 5 (idempotent) and
+/-- HISTORICAL witness (fixed in d9a4d81).  F10, second form (chronological order does not help): the store has 5; insert 5 (idempotent) and
 remove 5 in one batch cancel each other, the read falls back to the store and returns 5. -/
 theorem set_asis_fails_cancel :
     (SetCache.run (SetCache.init SetCache.asIs 1024 [5]) [.begin, .ins 5, .rem 5, .get]).map (·.2)
       = some [([5], [])] := by decide
 
-/-- F10, third form: insert in batch 0, remove in batch 1, batch 0 committed (its operation stays in the
+/-- HISTORICAL witness (fixed in d9a4d81).  F10, third form: insert in batch 0, remove in batch 1, batch 0 committed (its operation stays in the
 log: `FlushUpTo` pops from a max-heap): the pair cancels and the store image – which now has 5 – wins. -/
 theorem set_asis_fails_committed_op :
     (SetCache.run (SetCache.init SetCache.asIs 1024 [])
       [.begin, .ins 5, .submit, .begin, .rem 5, .submit, .commit, .get]).map (·.2)
       = some [([5], [])] := by decide
 
-/-- Finding F17 (threshold 4 instead of 1024): store {1..5} is fetched with a staged removal of 3; the
+/-- HISTORICAL witness (fixed in /repo b91d22f).  Finding F17 (threshold 4 instead of 1024): store {1..5} is fetched with a staged removal of 3; the
 `Spilled` iterator meets 3, falls through to the exhausted rest iterator and the empty additions and
 ends the iteration: {1,2} instead of {1,2,4,5}. -/
 theorem set_asis_fails_spilled :
     (SetCache.run (SetCache.init SetCache.asIs 4 [1, 2, 3, 4, 5]) [.begin, .rem 3, .get]).map (·.2)
       = some [([1, 2], [1, 2, 4, 5])] := by decide
 
-/-- the repaired configuration on the same four histories -/
+/-- the code as it is now on the same four histories -/
 example :
     (SetCache.run (SetCache.init SetCache.repaired 1024 [])
         [.begin, .ins 5, .submit, .begin, .rem 5, .submit, .begin, .ins 5, .get]).map (·.2) = some [([5], [5])] ∧
